@@ -89,9 +89,10 @@ def run(eng: Engine, ck: Check):
         lambda fn, c, ch: (unparse(c.args[0]) == 'UserStatus.ONLINE.value' if c.args else False, f'status argument `{unparse(c.args[0]) if c.args else ""}`'))
     row('UserManager', 'CheckPrivileges.Request', 'privileges', always, lambda fn, c, ch: (True, ''))
     row('SharesManager', 'SharedFoldersFiles.Request', 'share counts', always,
-        lambda fn, c, ch: (unparse(kw(c, 'shared_folder_count')) == 'folder_count' and unparse(kw(c, 'shared_file_count')) == 'file_count' and
-                           any(isinstance(n, ast.Assign) and 'get_stats()' in unparse(n.value) and
-                               [unparse(t) for t in n.targets[0].elts] == ['folder_count', 'file_count'] for n in walk_local(fn.node)),
+        lambda fn, c, ch: (any(isinstance(n, ast.Assign) and isinstance(n.targets[0], ast.Tuple) and len(n.targets[0].elts) == 2 and
+                               any(call_name(y) == 'get_stats' for y in ast.walk(n.value)) and
+                               [unparse(t) for t in n.targets[0].elts] == [unparse(kw(c, 'shared_folder_count')), unparse(kw(c, 'shared_file_count'))]
+                               for n in walk_local(fn.node)),
                            'counts are not (folder_count, file_count) = get_stats()'))
     row('InterestManager', 'AddInterest.Request', 'every liked interest', always,
         lambda fn, c, ch: (loop_iter(fn, c).endswith('_settings.interests.liked'), f'iterates `{loop_iter(fn, c)}`'))
@@ -129,8 +130,11 @@ def run(eng: Engine, ck: Check):
     ck.floor('R-C16-LOGIN', len(em), 1)
     for x in em:
         gs = [(unparse(e), pol) for e, pol, _ in eng.guards_at(lg, x)]
-        succ = ('response.success', True) in gs
-        typed = any('isinstance(response, Login.Response)' in g and p for g, p in gs)
+        # the local that holds the answer of the server
+        rsp = {unparse(n_.targets[0]) for n_ in walk_local(lg.node) if isinstance(n_, ast.Assign) and any(call_name(y_) == 'receive_message_object' for y_ in ast.walk(n_.value))}
+        succ = any(isinstance(e_, ast.Attribute) and e_.attr == 'success' and unparse(e_.value) in rsp and p_ for e_, p_, _ in eng.guards_at(lg, x))
+        typed = any(isinstance(e_, ast.Call) and call_name(e_) == 'isinstance' and len(e_.args) == 2 and unparse(e_.args[0]) in rsp and
+                    unparse(e_.args[1]) == 'Login.Response' and p_ for e_, p_, _ in eng.guards_at(lg, x))
         ck.ob('R-C16-LOGIN', lg, x, 'the session event is emitted only for an accepted Login.Response', succ and typed, f'{gs}', construct='emit on success only')
         st = [s for f, s, v in eng.stores_to_attr('session', [lg])]
         ok = len(st) == 1 and c.nodes_for(st[0])[0] in c.dominators()[c.nodes_for(x)[0]]
